@@ -84,6 +84,8 @@ class CallMixin:
         k = fv.k
         if k == 'func':
             clo = fv.v
+            if clo.name and clo.name in self.cfg.pure_models:
+                return self.cfg.pure_models[clo.name](self, st, clo, args)
             if clo.name and clo.name in self.cfg.summaries:
                 return self.call_summary(st, clo, args)
             return self.inline(st, clo, args)
@@ -430,10 +432,8 @@ class CallMixin:
 
     def b_getattr(self, st, args):
         o, name = args.pos[0], args.pos[1]
-        if name.k != 'str':
-            raise Unsupported('getattr with non-constant name')
-        cname = z3.simplify(name.v)
-        if z3.is_string_value(cname):
+        cname = z3.simplify(name.v) if name.k == 'str' else None
+        if cname is not None and z3.is_string_value(cname):
             outs = self.getattr_(st, o, cname.as_string())
         else:
             outs = self.prim(st, 'getattr', [o, name])
